@@ -29,7 +29,7 @@ ASSUMPTIONS = [
 
 
 def BOUNDS(tier):
-    return {"k": [1, 3, 6, 10], "E_nu": [[1.0, 0.3], [210.0, 0.0], [5.0, 0.45]], "densities": [1.0, 7.8], "rigid_motions": "6 cube rotations + generic + translation"}
+    return {"item_lists": "every ordered selection of 1..3 out of three solid bodies (multipliers 0.25 / none / 3) on one field", "k": [1, 3, 6, 10], "E_nu": [[1.0, 0.3], [210.0, 0.0], [5.0, 0.45]], "densities": [1.0, 7.8], "rigid_motions": "6 cube rotations + generic + translation"}
 
 
 FAMS = [("hexahedron", "3d"), ("hexahedron20", "3d"), ("tetra", "3d"), ("tetra10", "3d"), ("quad", "ps"), ("quad8", "ps"), ("triangle6", "ps")]
@@ -45,7 +45,81 @@ def plan(tier, seed):
     for mk, fk in (("hexahedron", "3d"),):
         for bc in ("clamped-face", "partial"):
             cases.append(dict(key=f"{mk}/{bc}/u,p,J", mesh=mk, fk=fk, bc=bc, cont="mixed", seed=seed, tier=tier, cost=6))
+    # bodies made of several items on one field: every ordered selection of 1..3 out of three items
+    # (multiplier 0.25 / none / multiplier 3), so that nothing may leak from one item of the list to the next
+    for mk, fk in (("hexahedron", "3d"), ("quad", "ps")):
+        cases.append(dict(key=f"{mk}/items", kind="items", mesh=mk, fk=fk, seed=seed, tier=tier, cost=5))
     return cases
+
+
+def run_items(case):
+    import felupe as fem
+    import scipy.linalg as sla
+
+    warnings.simplefilter("ignore")
+    key = case["key"]
+    viol, nontrivial, outcomes = [], [], set()
+    st = dict(trans=0, traces=0, states=0)
+
+    def bad(sub, what, obs, exp, tol=0):
+        if len(viol) < 50:
+            viol.append(dict(key=f"{key}/{sub}", what=what, observed=obs, expected=exp, tol=tol))
+
+    mk, fk, seed = case["mesh"], case["fk"], case["seed"]
+    mesh = zoo.make(mk, "aniso" if zoo.BASE[mk][1] == 2 else "strip", seed)
+    d = mesh.dim
+    spec = [("a", 1.0, 0.3, 1.0, 0.25), ("b", 3.0, 0.2, 2.0, None), ("c", 0.5, 0.4, 0.7, 3.0)]  # name, E, nu, density, multiplier
+    spectra = {}
+    for r in (1, 2, 3):
+        for order in itertools.permutations(range(3), r):
+            region = zoo.region(mk, mesh)
+            Fc = fem.Field if fk == "3d" else fem.FieldPlaneStrain
+            field = fem.FieldContainer([Fc(region, dim=d)])
+            items = [fem.SolidBody(fem.LinearElasticLargeStrain(E=spec[i][1], nu=spec[i][2]), field, density=spec[i][3], multiplier=spec[i][4]) for i in order]
+            P = mesh.points
+            bounds = {"fix": fem.Boundary(field[0], mask=np.isclose(P[:, 0], P[:, 0].min()))}
+            dof0, dof1 = fem.dof.partition(field, bounds)
+            # the checker's pencil: K = sum_i multiplier_i K_i, M = sum_i M_i, each from a FRESH single item
+            N = int(sum(field.fieldsizes))
+            K, M = np.zeros((N, N)), np.zeros((N, N))
+            for i in order:
+                one = fem.SolidBody(fem.LinearElasticLargeStrain(E=spec[i][1], nu=spec[i][2]), field, density=spec[i][3])
+                K += (spec[i][4] if spec[i][4] is not None else 1.0) * one.assemble.matrix(field).toarray()
+                M += one.assemble.mass().toarray()
+            K1, M1 = K[np.ix_(dof1, dof1)], M[np.ix_(dof1, dof1)]
+            dense = sla.eigh(K1, M1, eigvals_only=True)
+            k = 4
+            job = fem.FreeVibration(items, bounds)
+            job.evaluate(x0=field, k=k, v0=1.0 + zoo.offarr(seed, 1500, (len(dof1),)))
+            st["trans"] += 1
+            st["states"] += 1
+            lab = "order=" + "".join(spec[i][0] for i in order)
+            lam_, V = np.asarray(job.eigenvalues), np.asarray(job.eigenvectors)
+            Kn = np.abs(K1).max()
+            for j in range(k):
+                v = V[:, j]
+                res = np.abs(K1 @ v - lam_[j] * (M1 @ v)).max()
+                st["traces"] += 1
+                if res > 1e-7 * Kn * np.abs(v).max():
+                    bad(f"{lab}/pair{j}", "K v = lambda M v with K = sum multiplier_i K_i, M = sum M_i assembled from the items", float(res / (Kn * np.abs(v).max())), "<= 1e-7", 1e-7)
+            if np.abs(np.sort(lam_) - dense[:k]).max() > 1e-7 * abs(dense[k]):
+                bad(f"{lab}/spectrum", "returned eigenvalues vs the k smallest of the dense pencil of the item list", np.sort(lam_).tolist(), dense[:k].tolist(), 1e-7)
+            nontrivial.append(lab)
+            spectra.setdefault(tuple(sorted(order)), []).append((lab, np.sort(lam_)))
+            # the items themselves must not have been modified by the analysis (a second analysis gives the same spectrum)
+            job2 = fem.FreeVibration(items, bounds)
+            job2.evaluate(x0=field, k=k, v0=1.0 + zoo.offarr(seed, 1500, (len(dof1),)))
+            st["trans"] += 1
+            if np.abs(np.sort(job2.eigenvalues) - np.sort(lam_)).max() > 1e-9 * abs(dense[k]):
+                bad(f"{lab}/repeat", "a second analysis of the same item list gives another spectrum (items modified by evaluate)", np.sort(job2.eigenvalues).tolist(), np.sort(lam_).tolist(), 1e-9)
+    for sel, lst in spectra.items():
+        for lab, sp in lst[1:]:
+            st["traces"] += 1
+            if np.abs(sp - lst[0][1]).max() > 1e-8 * np.abs(sp).max():
+                bad(f"{lab}/order-invariance", "spectrum must not depend on the order of the items", sp.tolist(), lst[0][1].tolist(), 1e-8)
+    outcomes.add(f"selections={len(spectra)}")
+    return dict(viol=viol, states=st["states"], transitions=st["trans"], traces=st["traces"], nontrivial=nontrivial, outcomes=sorted(outcomes), sample=dict(case=key, item_lists=st["states"]),
+                notes=[], digest=f"{st['states']}/{st['traces']}/{len(viol)}")
 
 
 def run(case):
@@ -53,6 +127,8 @@ def run(case):
     import scipy.linalg as sla
     from scipy.sparse.linalg import eigsh
 
+    if case.get("kind") == "items":
+        return run_items(case)
     warnings.simplefilter("ignore")
     key = case["key"]
     viol, nontrivial, outcomes, notes = [], [], set(), []
